@@ -91,59 +91,46 @@ def rule_r1(prog, res) -> None:
     params = fc.param_names()[1:4]
     cross, ref, unk = params
 
-    def role(text: str) -> str:
-        try:
-            e = ast.parse(text, mode="eval").body
-        except SyntaxError:
-            return text
-        def dep(pname):
-            return depends_on(fn, e, lambda y: isinstance(y, ast.Name) and y.id == pname)
-        if isinstance(e, ast.Name):
-            vals = [v for v in all_def_values(fn, e.id) if v is not None]
-            roles = set()
-            ones = 0
-            for v in vals:
-                if isinstance(v, ast.Call) and v.args and isinstance(v.args[0], ast.Constant) and v.args[0].value == 1.0:
-                    ones += 1
-                elif isinstance(v, ast.Constant) and v.value == 1.0:
-                    ones += 1
-                else:
-                    roles.add(role(unparse(v)))
-            if len(roles) == 1:
-                return roles.pop()
-        if re.search(r"\.dz\b", text) and dep(cross):
-            return "DZ"
-        for pname, r in ((ref, "SS"), (unk, "PP"), (cross, "SP")):
-            if dep(pname) and re.search(r"\.(data|samples)$", text):
-                return r
-        return text
+    # decided on the symbolic store: for every combination of given / absent autocorrelations the two arguments
+    # of the constructor are written in terms of <param>.data / <param>.samples / <cross>.binning.dz and compared
+    # (as rational normal forms) with w_sp / sqrt(dz^2 w_ss w_pp), an absent autocorrelation being the constant 1
+    from .. import symx
 
-    ctor = [c for c in calls_in(fc) if isinstance(c.func, ast.Name) and c.func.id == "cls"]
-    if len(ctor) != 1 or len(ctor[0].args) < 3:
-        raise AnalysisError("C04.R1: RedshiftData.from_corrdata construction not recognised")
-    want = Rational(_atom("SP")) / Rational(uf_atom("sqrt", Rational(_atom("DZ")) * Rational(_atom("DZ")) * Rational(_atom("SS")) * Rational(_atom("PP"))))
-    resolver = lambda n: (lambda vals: vals[0] if len(vals) == 1 else None)([v for v in all_def_values(fn, n) if v is not None])  # noqa: E731
-    for which, arg in (("value", ctor[0].args[1]), ("samples", ctor[0].args[2])):
-        got = poly(arg, resolver, role)
-        if got.equals(want):
-            res.ok("C04.R1", res.site(fc, f"n(z) {which}"), "normalises to w_sp / sqrt(dz^2 * w_ss * w_pp)")
-        else:
-            res.violation("C04.R1", fc, arg, f"n(z) {which} normalises to {got.canon()}, documented is w_sp / sqrt(dz^2 w_ss w_pp)", key_extra=f"nz-formula-{which}")
-    # absent autocorrelations are the constant 1
-    ones_ok = True
-    for pname in (ref, unk):
-        for x in walk_no_nested(fn):
-            if isinstance(x, ast.If) and isinstance(x.test, ast.Compare) and unparse(x.test) == f"{pname} is None":
-                for st in x.body:
-                    if isinstance(st, ast.Assign):
-                        v = st.value
-                        c = v.args[0] if isinstance(v, ast.Call) and v.args else v
-                        if not (isinstance(c, ast.Constant) and c.value == 1.0):
-                            ones_ok = False
-    if ones_ok:
-        res.ok("C04.R1", res.site(fc, "absent autocorrelations"), "bound to the constant 1 for value and samples")
-    else:
-        res.violation("C04.R1", fc, fn, "an absent autocorrelation is not replaced by 1", key_extra="nz-absent-not-one")
+    def role_for(member: str):
+        def role(text: str) -> str:
+            for pname, r in ((ref, "SS"), (unk, "PP"), (cross, "SP")):
+                if text == f"{pname}.{member}":
+                    return r
+                if text in (f"{pname}.data", f"{pname}.samples"):
+                    return f"{r}.{text.rsplit('.', 1)[1]}!"  # the other member of the (data, samples) pair
+            if re.fullmatch(rf"{re.escape(cross)}\.(binning\.)?dz", text):
+                return "DZ"
+            return text
+
+        return role
+
+    n_cases = 0
+    for has_ref in (True, False):
+        for has_unk in (True, False):
+            env = {ref: "SOME" if has_ref else None, unk: "SOME" if has_unk else None, "on_root()": True}
+            paths = [p for p in symx.explore(prog, fc, env=env, inline=symx.inline_private_helpers(prog), skip_tests=("logger",)) if p.outcome == "return"]
+            ctors = [ev for p in paths for ev in p.calls() if isinstance(ev.node.func, ast.Name) and ev.node.func.id == "cls"]
+            if not ctors or any(len(ev.expr.args) < 3 for ev in ctors):
+                raise AnalysisError("C04.R1: RedshiftData.from_corrdata construction not recognised")
+            ss = Rational(_atom("SS")) if has_ref else Rational(_const(1))
+            pp = Rational(_atom("PP")) if has_unk else Rational(_const(1))
+            want = Rational(_atom("SP")) / Rational(uf_atom("sqrt", Rational(_atom("DZ")) * Rational(_atom("DZ")) * ss * pp))
+            label = f"ref {'given' if has_ref else 'absent'}, unk {'given' if has_unk else 'absent'}"
+            for ev in ctors:
+                for which, arg, member in (("value", ev.expr.args[1], "data"), ("samples", ev.expr.args[2], "samples")):
+                    n_cases += 1
+                    got = poly(arg, None, role_for(member))
+                    if got.equals(want):
+                        res.ok("C04.R1", res.site(fc, f"n(z) {which} [{label}]"), "normalises to w_sp / sqrt(dz^2 * w_ss * w_pp)")
+                    else:
+                        res.violation("C04.R1", fc, ev.node, f"n(z) {which} ({label}) normalises to {got.canon()}, documented is w_sp / sqrt(dz^2 w_ss w_pp) built from the .{member} of each input", key_extra=f"nz-formula-{which}")
+    if n_cases < 8:
+        raise AnalysisError(f"C04.R1: only {n_cases} (case, argument) pairs of the n(z) formula examined, expected 8")
     # normalised(): X / nansum(dz * X)
     for cname in ("HistData", "RedshiftData"):
         m = prog.func(f"{cname}.normalised")
@@ -204,39 +191,69 @@ def rule_r1(prog, res) -> None:
 
 
 def rule_r2(prog, res) -> None:
-    """estimator selection and keyword passing"""
+    """estimator selection and keyword passing (decided on the symbolic store of CorrFunc.sample: which function
+    is applied to the counts with / without random-random counts, and how the counts dictionary is keyed)"""
+    from .. import symx
+
     sm = prog.func("CorrFunc.sample")
     res.touch(sm)
-    sel = [x for x in walk_no_nested(sm.node) if isinstance(x, ast.Assign) and isinstance(x.value, ast.IfExp) and any(isinstance(t, ast.Name) and t.id == "estimator" for t in x.targets)]
-    if len(sel) != 1:
-        raise AnalysisError("C04.R2: estimator selection not recognised")
-    ife = sel[0].value
-    attrs = {unparse(x) for x in ast.walk(ife.test) if isinstance(x, ast.Attribute)}
-    if attrs != {"self.rr"}:
-        res.violation("C04.R2", sm, sel[0], f"the estimator is selected by {sorted(attrs)}, not by the presence of the random-random counts alone", key_extra="estimator-selection-criterion")
+    pol = symx.inline_private_helpers(prog, public={"to_dict", "sample_patch_sum", "landy_szalay", "davis_peebles"})
+    EST = ("landy_szalay", "davis_peebles")
+
+    def estimators(has_rr: bool):
+        facts = {"self.rr is not None": has_rr, "self.rr is None": not has_rr}
+        paths = [p for p in symx.explore(prog, sm, facts=facts, inline=pol, skip_tests=("logger",), env={"on_root()": True}) if p.outcome == "return"]
+        calls = [ev for p in paths for ev in p.calls() if ev.callee in EST or any(k.arg is None for k in ev.expr.keywords) and not ev.expr.args and isinstance(ev.node.func, ast.Name)]
+        return paths, calls
+
+    picked = {}
+    all_calls = []
+    for has_rr in (True, False):
+        paths, calls = estimators(has_rr)
+        if not calls:
+            raise AnalysisError("C04.R2: estimator selection not recognised (no estimator(**counts) call on the explored paths)")
+        picked[has_rr] = sorted({ev.callee for ev in calls})
+        all_calls.extend(calls)
+    undecided = [names for names in picked.values() if len(names) != 1]
+    if undecided:
+        res.violation("C04.R2", sm, all_calls[0].node, f"the estimator is not selected by the presence of the random-random counts alone (with RR: {picked[True]}, without: {picked[False]})", key_extra="estimator-selection-criterion")
         return
-    try:
-        with_rr = ceval(ife.test, {"self.rr": "SOME"})
-        without = ceval(ife.test, {"self.rr": None})
-    except Unknown:
-        raise AnalysisError("C04.R2: cannot evaluate the estimator selection test")
-    pick = lambda v: unparse(ife.body if v else ife.orelse)  # noqa: E731
-    if pick(with_rr) == "landy_szalay" and pick(without) == "davis_peebles":
+    if picked[True] == ["landy_szalay"] and picked[False] == ["davis_peebles"]:
         res.ok("C04.R2", res.site(sm, "estimator"), "Landy-Szalay exactly when random-random counts exist, Davis-Peebles otherwise")
     else:
-        res.violation("C04.R2", sm, sel[0], f"with RR the estimator is {pick(with_rr)}, without RR it is {pick(without)}", key_extra="estimator-selection")
+        res.violation("C04.R2", sm, all_calls[0].node, f"with RR the estimator is {picked[True][0]}, without RR it is {picked[False][0]}", key_extra="estimator-selection")
+
     # counts are collected per kind under their own key and passed by keyword
-    loops = [x for x in walk_no_nested(sm.node) if isinstance(x, ast.For) and "to_dict" in unparse(x.iter)]
-    ok = False
-    for lp in loops:
-        if isinstance(lp.target, ast.Tuple):
-            k = lp.target.elts[0].id
-            st = [s for s in lp.body if isinstance(s, ast.Assign) and isinstance(s.targets[0], ast.Subscript)]
-            if len(st) >= 2 and all(isinstance(s.targets[0].slice, ast.Name) and s.targets[0].slice.id == k for s in st):
-                ok = True
-    est_calls = [c for c in calls_in(sm) if isinstance(c.func, ast.Name) and c.func.id == "estimator"]
-    star = all(len(c.keywords) == 1 and c.keywords[0].arg is None and not c.args for c in est_calls)
-    if ok and len(est_calls) == 2 and star:
+    def keyed_by_kind(x, depth=0) -> bool:
+        """x is a dictionary whose keys are the keys of self.to_dict()"""
+        if depth > 4:
+            return False
+        x = symx.strip_wrappers(x)
+        if isinstance(x, ast.Call) and isinstance(x.func, ast.Attribute) and x.func.attr == "to_dict":
+            return True
+        if isinstance(x, ast.Call) and isinstance(x.func, ast.Name) and x.func.id == symx.SETITEM:
+            base, key, _val = x.args
+            k = key
+            ok_key = isinstance(k, ast.Subscript) and isinstance(k.slice, ast.Constant) and k.slice.value == 0 and isinstance(k.value, ast.Call) and getattr(k.value.func, "id", "") == symx.ELEM and items_of_kinds(k.value.args[0], depth + 1)
+            base = symx.strip_wrappers(base)
+            base_ok = (isinstance(base, ast.Dict) and not base.keys) or keyed_by_kind(base, depth + 1)
+            return bool(ok_key and base_ok)
+        if isinstance(x, ast.DictComp) and len(x.generators) == 1:
+            g = x.generators[0]
+            t0 = g.target.elts[0] if isinstance(g.target, ast.Tuple) and g.target.elts else g.target
+            return isinstance(x.key, ast.Name) and isinstance(t0, ast.Name) and x.key.id == t0.id and not g.ifs and items_of_kinds(g.iter, depth + 1)
+        return False
+
+    def items_of_kinds(it, depth) -> bool:
+        it = symx.strip_wrappers(it)
+        if isinstance(it, ast.Call) and isinstance(it.func, ast.Attribute) and it.func.attr == "items":
+            return keyed_by_kind(it.func.value, depth)
+        return False
+
+    star = all(len(ev.expr.keywords) == 1 and ev.expr.keywords[0].arg is None and not ev.expr.args for ev in all_calls)
+    sites = {id(ev.node) for ev in all_calls}
+    keyed = star and all(keyed_by_kind(ev.expr.keywords[0].value) for ev in all_calls)
+    if keyed and len(sites) == 2:
         res.ok("C04.R2", res.site(sm, "keywords"), "pair counts are stored under their kind (dd/dr/rd/rr) and handed to the estimator by keyword")
     else:
         res.violation("C04.R2", sm, sm.node, "pair counts are not handed to the estimator by their kind", key_extra="estimator-keywords")
@@ -260,96 +277,81 @@ def _twin_norm(text: str) -> str:
     return text
 
 
+def _twin_text(text: str) -> str:
+    """samples -> data on member accesses: maps the samples expression into the vocabulary of the value expression"""
+    return re.sub(r"\.samples\b", ".data", text)
+
+
 def twin_path(prog, res, rule: str) -> int:
-    """value and samples are produced by the same formula at every construction site"""
-    from ..norm import _poly_env as PE
+    """value and samples are produced by the same formula at every construction site.
+
+    Decided on the symbolic store: at every construction T(binning, D, S) of a sampled container the two
+    arguments are written in terms of the function's inputs (locals, helper functions and closures are
+    substituted away).  A site whose S reads the `.samples` of an input transforms existing samples: there
+    S with every `.samples` read as `.data` must equal D (compared as rational normal forms, so the order of
+    terms and named intermediate steps do not matter), and outside scalar reductions S must not read a `.data`."""
+    from .. import symx
 
     n = 0
     targets = {"SampledData", "CorrData", "RedshiftData", "HistData"}
     for fi in prog.funcs:
         if not fi.module.name.startswith(("yaw.correlation", "yaw.redshifts")):
             continue
+        if fi.parent is not None:
+            continue  # closures are explored as part of the function that defines them
+        sites = []
         for c in calls_in(fi):
             f = c.func
             is_ctor = False
             if isinstance(f, ast.Name) and (f.id in targets or (f.id == "cls" and fi.cls is not None and fi.cls.name in targets)):
                 is_ctor = True
-            if isinstance(f, ast.Call) and isinstance(f.func, ast.Name) and f.func.id == "type" and fi.cls is not None and (fi.cls.name in targets or any(getattr(b, "name", "") in targets for b in prog.mro(fi.cls))):
+            if isinstance(f, ast.Call) and isinstance(f.func, ast.Name) and f.func.id == "type" and fi.cls is not None and (fi.cls.name in targets or any(getattr(b_, "name", "") in targets for b_ in prog.mro(fi.cls))):
                 is_ctor = True
-            if not is_ctor or len(c.args) < 3:
-                continue
-            d_arg, s_arg = c.args[1], c.args[2]
-            seen_twin = []
-
-            def _twin_norm(text: str, seen_twin=seen_twin) -> str:  # noqa: F811 (records whether a samples-atom occurs)
-                out = text
-                if "(" in text:
-                    return text  # an opaque call (e.g. a loader) is a source, not a renamed twin
-                for a, b in TWIN_RENAMES:
-                    out = re.sub(a, b, out)
-                if out != text:
-                    seen_twin.append(text)
-                return out
-
-            try:
-                paths = list(sym_exec(fi.node.body, rename=_twin_norm))
-            except NotAffine:
-                paths = []
-            # a twin site transforms the samples of another container; sources of samples (resampling, loading) are not
-            probe = poly(s_arg, lambda nm: (lambda vals: vals[0] if len(vals) == 1 else None)([v for v in all_def_values(fi.node, nm) if v is not None]), _twin_norm)
-            if paths:
-                for conds, env, ret in paths:
-                    if ret is not None and any(y is c for y in ast.walk(ret)):
-                        PE(s_arg, env, _twin_norm)
-            if not seen_twin and fi.qualname != "CorrFunc.sample":
+            if is_ctor and len(c.args) >= 3:
+                sites.append(c)
+        if not sites:
+            continue
+        try:
+            paths = symx.explore(prog, fi, inline=symx.inline_private_helpers(prog, public={"to_dict", "sample_patch_sum", "landy_szalay", "davis_peebles"}), skip_tests=("logger",), env={"on_root()": True})
+        except symx.TooManyPaths as err:
+            raise AnalysisError(f"{rule}: {err}") from None
+        per_site: dict = {}
+        for p in paths:
+            for ev in p.calls():
+                if ev.node in sites and len(ev.expr.args) >= 3:
+                    per_site.setdefault(id(ev.node), []).append(ev)
+        for c in sites:
+            evs = per_site.get(id(c), [])
+            if not evs:
+                raise AnalysisError(f"{rule}: construction `{norm_stmt(c)[:50]}` in {fi.short} is not reached by any explored path")
+            reads_samples = any(
+                symx.mentions(ev.expr.args[2], lambda y: isinstance(y, ast.Attribute) and y.attr == "samples") or symx.mentions(ev.expr.args[1], lambda y: isinstance(y, ast.Attribute) and y.attr == "data")
+                for ev in evs
+            )
+            if not reads_samples:
                 res.ok(rule, res.site(fi, norm_stmt(c)[:60]), "source of samples (resampling / loading), not a transformation of existing samples", nontrivial=False)
                 continue
             n += 1
             res.touch(fi)
-            done = False
-            for conds, env, ret in paths:
-                if ret is None or not any(y is c for y in ast.walk(ret)):
-                    continue
-                done = True
+            bad = None
+            for ev in evs:
+                D, S = ev.expr.args[1], ev.expr.args[2]
                 from ..norm import atoms_of
 
-                mixed = []
-                for conds2, env2, ret2 in sym_exec(fi.node.body):
-                    if conds2 == conds and ret2 is not None:
-                        raw_atoms = atoms_of(PE(s_arg, env2, lambda t: t))
-                        mixed = sorted(t for t in raw_atoms if "(" not in t and re.search(r"(\.data|_data|counts_values)$", t))
-                d, s = PE(d_arg, env, _twin_norm), PE(s_arg, env, _twin_norm)
-                if mixed:
-                    res.violation(rule, fi, c, f"the jackknife samples are computed from the VALUE of {mixed} instead of its samples: the samples do not vary with the left-out patch in that term", key_extra=f"twin-mixed-{fi.qualname}")
-                elif d.equals(s):
-                    res.ok(rule, res.site(fi, norm_stmt(c)[:60]), "samples expression equals the value expression under data<->samples renaming")
-                else:
-                    res.violation(rule, fi, c, f"jackknife samples are computed as {s.canon()[:120]} but the value as {d.canon()[:120]}: value and samples follow different formulas", key_extra=f"twin-{fi.qualname}")
-            if not done:
-                # construction not in a return / function has loops: compare the two argument expressions directly
-                resolver = lambda nm: (lambda vals: vals[0] if len(vals) == 1 else None)([v for v in all_def_values(fi.node, nm) if v is not None])  # noqa: E731
-                if fi.qualname == "CorrFunc.sample":
-                    def _twin_norm(text: str) -> str:  # noqa: F811  (plain textual renaming for this call-shaped site)
-                        for a_, b_ in TWIN_RENAMES:
-                            text = re.sub(a_, b_, text)
-                        return text
-
-                    dd = [v for v in all_def_values(fi.node, d_arg.id)] if isinstance(d_arg, ast.Name) else []
-                    ss = [v for v in all_def_values(fi.node, s_arg.id)] if isinstance(s_arg, ast.Name) else []
-                    same = len(dd) == 1 and len(ss) == 1 and _twin_norm(unparse(dd[0])) == _twin_norm(unparse(ss[0])) and "samples" in unparse(ss[0]) and "samples" not in unparse(dd[0])
-                    fill = [x for x in walk_no_nested(fi.node) if isinstance(x, ast.Assign) and isinstance(x.targets[0], ast.Subscript) and isinstance(x.targets[0].value, ast.Name) and x.targets[0].value.id.startswith("counts_")]
-                    pair = {x.targets[0].value.id: unparse(x.value) for x in fill}
-                    srcs_ok = pair.get("counts_values", "").endswith(".data") and pair.get("counts_samples", "").endswith(".samples") and _twin_norm(pair["counts_samples"]) == _twin_norm(pair["counts_values"])
-                    if same and srcs_ok:
-                        res.ok(rule, res.site(fi, "estimator(**values) / estimator(**samples)"), "the same estimator is applied to the values and to the samples of the same resampled counts")
-                    else:
-                        res.violation(rule, fi, c, "value and samples are not produced by the same estimator call on the same resampled counts", key_extra="twin-CorrFunc.sample")
+                # a scalar reduction (nansum, sum, mean) of the VALUE may legitimately scale the samples (normalisation)
+                raw = atoms_of(poly(S, None, lambda t: t))
+                mixed = sorted(t[-40:] for t in raw if "(" not in t and re.search(r"\.data$", t))
+                d, s_ = poly(D, None, lambda t: t), poly(S, None, _twin_text)
+                if d.equals(s_) and not mixed:
                     continue
-                d, s = poly(d_arg, resolver, _twin_norm), poly(s_arg, resolver, _twin_norm)
-                if d.equals(s):
-                    res.ok(rule, res.site(fi, norm_stmt(c)[:60]), "samples expression equals the value expression under data<->samples renaming")
-                else:
-                    res.violation(rule, fi, c, f"jackknife samples are computed as {s.canon()[:120]} but the value as {d.canon()[:120]}", key_extra=f"twin-{fi.qualname}")
+                bad = (ev, d, s_, mixed)
+                break
+            if bad is None:
+                res.ok(rule, res.site(fi, norm_stmt(c)[:60]), f"samples expression equals the value expression under data->samples on every path ({len(evs)})")
+            elif bad[3]:
+                res.violation(rule, fi, c, f"the jackknife samples are computed from the VALUE of {bad[3]} instead of its samples: the samples do not vary with the left-out patch in that term", key_extra=f"twin-mixed-{fi.qualname}")
+            else:
+                res.violation(rule, fi, c, f"jackknife samples are computed as {bad[2].canon()[:120]} but the value as {bad[1].canon()[:120]}: value and samples follow different formulas", key_extra=f"twin-{fi.qualname}")
     return n
 
 
